@@ -7,7 +7,7 @@ Request:  (edit SRC UNIT (EDIT ...) TREE RTAB)
            (sub RS "var" "new")            SubstituteExpressions({var: new}, rebuild_scopes=RS).visit(body)  (scalar rename, at most once)
   HANDLE = none | (node H) | (tuple H ...);  H = (ref IDX) an existing node (moved/copied) | (fresh J) the J-th fresh statement
   TREE   = export of the routine body as the frontend produced it:
-           (KIND LBL (INLINE ELSEIF LABEL|none) STATUS L0 L1 (line ...) (body ...) (else ...))
+           (KIND LBL (INLINE ELSEIF LABEL|none ENDDO) STATUS L0 L1 (line ...) (body ...) (else ...))
   RTAB   = ((LBL ((hdr ...) (hdrEI ...) (mid ...) (ftr ...)) BIND NOIND ASG) ...)  what the regular backend prints for the node
            itself at depth 0 (children replaced by markers); entries for the original nodes, the fresh nodes (LBL >= 100000) and the
            substituted variants (LBL + 50000);  ASG = none | ("lhs" "rhs" "str(lhs)" "str(rhs)" "comment" PTR)
@@ -233,7 +233,8 @@ class World:
             lines, l0, l1 = [], 0, 0
         b, e = node_kids(o)
         lab = getattr(o, 'label', None)
-        fl = [bool(getattr(o, 'inline', False)), bool(getattr(o, 'has_elseif', False)), A('none') if lab is None else str(lab)]
+        fl = [bool(getattr(o, 'inline', False)), bool(getattr(o, 'has_elseif', False)), A('none') if lab is None else str(lab),
+              bool(getattr(o, 'has_end_do', True))]
         return [A(kind_of(o)), self.lbl(o), fl, A(status_of(o)), l0, l1, lines,
                 [self.export(c) for c in b], [self.export(c) for c in e]]
 
@@ -337,9 +338,6 @@ def _derived_uncached(src, unit, edits):
         subs = [e for e in edits if str(e[0]) == 'sub']
         if len(subs) > 1:
             raise Unsupported('more than one substitution')
-        if subs and any(isinstance(n, ir.Conditional) and n.inline for n in preorder(w.body)):
-            # an inline IF and its body statement share one Source *object*: invalidating either flags both (not modelled)
-            raise Unsupported('substitution with inline conditionals')
         if subs and str(subs[0][1]).lower() == 'true' and any(isinstance(n, ScopedNode) for n in preorder(w.body)):
             # rebuild_scopes clones the Source before the children are visited; the in-place invalidation then hits the
             # original object only (Source aliasing, not modelled)
@@ -730,77 +728,22 @@ def reassembled(n):
 def classify(tree):
     """known-finding classes present in a (result) tree: decidable predicates on the exported data"""
     out = set()
-    vis = list(visited(tree))
-    for n, parent in vis:
+    for n, parent in visited(tree):
         k = t_kind(n)
         if reassembled(n):
             first = strip_comment(t_text(n)[0]).rstrip() if t_text(n) else ''
             if first.endswith('&'):
                 out.add('multiline-header-truncated')
-            last = ''.join(strip_comment(t_text(n)[-1]).lower().split()) if t_text(n) else ''
-            if k == 'loop' and not last.startswith('enddo'):
-                out.add('labelled-do-terminator-repeated')
-            if k == 'cond' and not t_elseif(n) and t_els(n) and not any(l.upper().strip() == 'ELSE' for l in t_text(n)):
-                out.add('else-line-not-found')
-        if k == 'cond' and t_inline(n) and t_status(n) not in ('valid',) and t_body(n) and \
-                t_status(t_body(n)[0]) == 'valid' and t_kind(t_body(n)[0]) in VERB:
-            out.add('inline-conditional-repeated')
-        if parent is not None and t_label(n) is not None and k in VERB and t_status(n) == 'valid':
-            out.add('statement-label-repeated')
         if parent is not None and k == 'comment' and t_status(n) == 'valid':
             sib = list(t_body(parent)) + list(t_els(parent))
             i = [j for j, c in enumerate(sib) if c is n][0]
             if i > 0 and t_status(sib[i - 1]) != 'none' and t_l1(sib[i - 1]) == t_l0(n):
                 out.add('inline-comment-repeated')
-        if k in ('loop', 'cond', 'section') and t_status(n) == 'valid' and not t_body(n) and not t_els(n):
-            if (k == 'section' and ''.join(t_text(n)).strip()) or (k != 'section' and t_l1(n) - t_l0(n) >= 2):
-                out.add('emptied-node-stays-valid')
-    if elseif_leak(tree, False):
-        out.add('elseif-flag-leaks')
+            if t_kind(parent) == 'cond' and t_els(parent) and t_els(parent)[0] is n and t_status(parent) != 'none':
+                # the comment behind `ELSE`: its source line is the ELSE line recovered by the parent
+                if any(l.upper().split('!')[0].strip() == 'ELSE' and '!' in l for l in t_text(parent)):
+                    out.add('inline-comment-repeated')
     return out
-
-
-def elseif_leak(n, ie):
-    """mirror of the `is_elseif` keyword travelling through `**kwargs` in the conservative visitor: True when it reaches a handler
-    that is not the ELSE IF branch it was meant for (a second `is_elseif=` → TypeError, or a regular IF printed as ELSE IF)"""
-    k, st = t_kind(n), t_status(n)
-    if k in VERB and st == 'valid':
-        return False
-    kids_b, kids_e = list(t_body(n)), list(t_els(n))
-    if k == 'cond':
-        if st == 'ichildren' and not t_inline(n):
-            if t_elseif(n):
-                if ie:
-                    return True
-                return any(elseif_leak(c, ie) for c in kids_b) or any(elseif_target(c) for c in kids_e)
-            return any(elseif_leak(c, ie) for c in kids_b + kids_e)
-        if t_inline(n):
-            return any(elseif_leak(c, ie) for c in kids_b)
-        # regular handler: pops the flag; an ELSE IF header is right only for the direct else-if target (`elseif_target`)
-        if ie:
-            return True
-        if t_elseif(n):
-            return any(elseif_leak(c, False) for c in kids_b) or any(elseif_target(c) for c in kids_e)
-        return any(elseif_leak(c, False) for c in kids_b + kids_e)
-    return any(elseif_leak(c, ie) for c in kids_b + kids_e)
-
-
-def elseif_target(c):
-    """the else-if branch itself, visited with is_elseif=True on purpose"""
-    k, st = t_kind(c), t_status(c)
-    if k != 'cond':
-        return elseif_leak(c, True)
-    if st == 'valid':
-        return False
-    if st == 'ichildren' and not t_inline(c):
-        if t_elseif(c):
-            return True
-        return any(elseif_leak(x, True) for x in list(t_body(c)) + list(t_els(c)))
-    if t_inline(c):
-        return True
-    if t_elseif(c):
-        return any(elseif_leak(x, False) for x in t_body(c)) or any(elseif_target(x) for x in t_els(c))
-    return any(elseif_leak(x, False) for x in list(t_body(c)) + list(t_els(c)))
 
 
 # ---------------------------------------------------------------- edit generator
@@ -924,8 +867,7 @@ def _tables():
 
 # ---------------------------------------------------------------- the property
 
-PRIORITY = ['emptied-node-stays-valid', 'else-line-not-found', 'elseif-flag-leaks', 'multiline-header-truncated',
-            'labelled-do-terminator-repeated', 'inline-conditional-repeated', 'statement-label-repeated', 'inline-comment-repeated']
+PRIORITY = ['multiline-header-truncated', 'inline-comment-repeated']
 SEMANTIC = PRIORITY[:-1]
 CPPMACRO = re.compile(r'__(LINE|FILE|DATE|TIME|VERSION__)')
 
@@ -1082,25 +1024,31 @@ class C03(Prop):
                     cls = None
                     if k == 'scoped':
                         cls = 'scoped-node-source-stale'
-                    elif k in ('loop', 'cond', 'iother') and not node_kids(n)[0] and not node_kids(n)[1]:
-                        cls = 'emptied-node-stays-valid'
-                    elif any(isinstance(p, ir.Conditional) and p.inline and any(c is n for c in p.body) for p in preorder(nb)):
-                        cls = 'inline-conditional-repeated'
                     fails.append(Failure(f'{type(n).__name__} at lines {n.source.lines} is flagged VALID but its text is not its '
                                          'subtree: ' + str(first_diff(logical_lines(st), ref)), cls))
                     break
         # Tiles, checked: re-flagging alone (identity transformer) must not change a single character where every node is
         # printed from its source
         if identity_only(edits) and edits and get_unit(sf, unit).body.body:
-            plain = all(t_kind(n) in VERB or (t_kind(n) == 'lother' and self._lother_verbatim(n, w)) for n in t_pre(rtree))
+            # (an inline IF is not re-assembled from its source: once re-flagged it is printed by the regular handler)
+            plain = all((t_kind(n) in VERB and not t_inline(n)) or (t_kind(n) == 'lother' and self._lother_verbatim(n, w))
+                        for n in t_pre(rtree))
             bl = w.body.source.lines
             orig = flines[bl[0] - 1:bl[1]]
             if plain and (out or '').split('\n') != orig:
                 fails.append(Failure('identity transformer: conservative output differs from the original text: '
                                      + str(first_diff((out or '').split('\n'), orig)), pick(classes, PRIORITY)))
         # every Source string is the text of its line span
-        for n in preorder(get_unit(sf, unit).body):
+        pristine = get_unit(sf, unit).body
+        inline_bodies = {id(c) for p in preorder(pristine) if isinstance(p, ir.Conditional) and p.inline for c in p.body}
+        for n in preorder(pristine):
             sl, ss = n.source.lines, n.source.string
+            if id(n) in inline_bodies:
+                # the action statement of an inline IF: the part of the statement behind the condition
+                if not '\n'.join(flines[sl[0] - 1:(sl[1] or sl[0])]).rstrip().endswith(ss.rstrip()):
+                    fails.append(Failure(f'{type(n).__name__}: source string is not the tail of lines {sl} of the file', None))
+                    break
+                continue
             if isinstance(n, ir.Section) and not n.body and not ss:
                 continue        # an empty body: the frontend records an empty string and the line after the unit
             if '\n'.join(flines[sl[0] - 1:(sl[1] or sl[0])]) != ss:
